@@ -226,9 +226,9 @@ DlLaw(r) ==
 \* the inverse problem is well conditioned for azimuths: not (nearly) coincident, antipodal or polar-antipodal
 \* (catalogue in Geodesic.hpp: lat1 = -lat2 with azi1 # azi2, and lon2 = lon1 +- 180 with azi1 not 0/180, have two solutions)
 \* cls 3: separations down to 1e-15 degree; 4: nearly antipodal; 6, 7: antipodal / both poles; 8: coincident;
-\* 15, 16: (nearly) equatorial pairs around the break-away longitude 180 (1 - f), nearly antipodal for small f
+\* 15, 16: (nearly) equatorial pairs around the break-away longitude 180 (1 - f), nearly antipodal for small f; 17: astroid region
 Conditioned(r) ==
-  /\ r.cls \notin {3, 4, 6, 7, 8, 15, 16} /\ r.deg[3] >= 1000000           \* at least 1 mm apart
+  /\ r.cls \notin {3, 4, 6, 7, 8, 15, 16, 17} /\ r.deg[3] >= 1000000       \* at least 1 mm apart
   /\ (r.deg[1] = 0 => r.eqaz) /\ (r.deg[2] = 0 => r.meraz)
 \* closure does not need a unique answer: whichever shortest geodesic is returned, following it arrives with the returned azimuth
 CondClosure(r) == r.cls \notin {3, 8} /\ r.deg[3] >= 1000000
